@@ -167,6 +167,8 @@ func MsgVerdict(msg []byte) string {
 	switch {
 	case strings.HasPrefix(l, "reject"):
 		return "reject"
+	case strings.HasPrefix(l, "earlypanic"):
+		return "earlypanic"
 	case strings.HasPrefix(l, "early"):
 		return "early"
 	case strings.HasPrefix(l, "panic"):
@@ -256,7 +258,7 @@ func deliver(cfg PConfig, s PState, msg []byte, viaBdat bool) StepExp {
 	case "reject", "early":
 		calls = append(calls, Call{Kind: "Reset"})
 		return StepExp{Alts: []Alt{{Replies: finalReplies(cfg, s, code(RejMsgCode)), Calls: calls, Next: s.endTx(), MsgVerdict: "reject", MsgText: strings.TrimRight(firstLine(msg), "\r\n")}}}
-	case "panic":
+	case "panic", "earlypanic":
 		calls = append(calls, Call{Kind: "Reset", Optional: true}, Call{Kind: "Logout"})
 		alts := []Alt{{Replies: finalReplies(cfg, s, code(421)), Calls: calls, Next: closed(s)}}
 		if cfg.LMTP && len(s.Rcpts) > 1 {
@@ -407,6 +409,15 @@ func Step(cfg PConfig, s PState, c Cmd, k int) StepExp {
 			// the backend has already given up on this message: the chunk fails
 			calls = append(calls, Call{Kind: "Reset"})
 			return StepExp{Alts: []Alt{{Replies: []RExp{code(EarlyMsgCode)}, Calls: calls, Next: s.endTx()}}}
+		}
+		if MsgVerdict(msg) == "earlypanic" && strings.Contains(string(msg), "\n") && len(msg) > len(firstLine(msg)) {
+			// the backend panics while this chunk is being copied: the server gives up on the connection
+			calls = append(calls, Call{Kind: "Reset", Optional: true}, Call{Kind: "Logout"})
+			alts := []Alt{{Replies: []RExp{code(421)}, Calls: calls, Next: closed(s)}}
+			if c.Last && cfg.LMTP {
+				alts = append(alts, Alt{Replies: finalReplies(cfg, s, code(421)), Calls: calls, Next: closed(s)})
+			}
+			return StepExp{Alts: alts}
 		}
 		if MsgVerdict(msg) == "early" && strings.Contains(string(msg), "\n") {
 			line := firstLine(msg)
